@@ -27,7 +27,7 @@ type genSpec struct {
 var msgConst = regexp.MustCompile(`(?:less than|<)\s*(\d+)`)
 
 func checkC16(c *Ctx) {
-	c.Decides("GF: each generator returns its size error exactly under the documented minimum (uniform/Yule/caterpillar: n<2, or n<3 when rooted; balanced: depth<1; star: n<2; enumerator: n<3 unrooted, n<2 rooted), the constant in the guard is the one in its message, and no node/branch is created, grafted or re-rooted on a path where the guard would have fired")
+	c.Decides("GF: each generator returns its size error exactly under the documented minimum (uniform/Yule/caterpillar: n<2, or n<3 when rooted; balanced: depth<1, or depth<2 when unrooted (2 tips cannot be unrooted); star: n<2; enumerator: n<3 unrooted, n<2 rooted), the constant in the guard is the one in its message, and no node/branch is created, grafted or re-rooted on a path where the guard would have fired")
 	c.Decides("PATH: every successful return passes ReinitIndexes (indexes ready for use); RerootFirst/UnRoot is called exactly when an unrooted tree is requested")
 	c.Decides("LENGTH: in the random generators and the star every branch created (ConnectNodes result, both GraftTipOnEdge results and the grafted branch) receives a length that is an exponential draw or a non-negative constant - a branch left at the 'absent' sentinel is a negative length")
 	c.Decides("SHAPE: star branches all hang from the root; the balanced recursion creates two children per node and recurses on both under the same depth test; the caterpillar always grafts on the branch of the previously added tip")
@@ -37,7 +37,8 @@ func checkC16(c *Ctx) {
 		{name: "RandomUniformBinaryTree", size: 0, rooted: 1, spec: func(n, r string) *bexpr { return bOr(nlt(n, 2), bAnd(nlt(n, 3), bAtom(r))) }, unroot: "RerootFirst", lengths: true, reindex: true},
 		{name: "RandomYuleBinaryTree", size: 0, rooted: 1, spec: func(n, r string) *bexpr { return bOr(nlt(n, 2), bAnd(nlt(n, 3), bAtom(r))) }, unroot: "RerootFirst", lengths: true, reindex: true},
 		{name: "RandomCaterpillarBinaryTree", size: 0, rooted: 1, spec: func(n, r string) *bexpr { return bOr(nlt(n, 2), bAnd(nlt(n, 3), bAtom(r))) }, unroot: "RerootFirst", lengths: true, reindex: true},
-		{name: "RandomBalancedBinaryTree", size: 0, rooted: 1, spec: func(n, r string) *bexpr { return nlt(n, 1) }, unroot: "UnRoot", lengths: false, reindex: true},
+		// an unrooted binary tree has at least 3 tips: UnRoot of the 2-tip tree of depth 1 leaves a tip as root (malformed text)
+		{name: "RandomBalancedBinaryTree", size: 0, rooted: 1, spec: func(n, r string) *bexpr { return bOr(nlt(n, 1), bAnd(nlt(n, 2), bNot(bAtom(r)))) }, unroot: "UnRoot", lengths: false, reindex: true},
 		{name: "StarTree", size: 0, rooted: -1, spec: func(n, r string) *bexpr { return nlt(n, 2) }, lengths: true, reindex: true},
 		{name: "AllTopologies", size: 0, rooted: 1, spec: func(n, r string) *bexpr { return bOr(bAnd(nlt(n, 3), bNot(bAtom(r))), bAnd(nlt(n, 2), bAtom(r))) }},
 	}
